@@ -173,7 +173,11 @@ template <class OffsetType, class ExtentType, class StrideType>
 MDSPAN_INLINE_FUNCTION
 constexpr auto
 stride_of(const strided_slice<OffsetType, ExtentType, StrideType> &r) {
-  return r.stride;
+  // [mdspan.sub.map]: a slice that selects at most one element (stride >= extent)
+  // keeps the source stride; multiplying by r.stride there could overflow.
+  return static_cast<size_t>(r.stride) < static_cast<size_t>(r.extent)
+             ? static_cast<size_t>(r.stride)
+             : size_t(1);
 }
 
 // divide which can deal with integral constant preservation
